@@ -175,7 +175,8 @@ class KeySpace(Subspace):
             else:
                 py = [None if kt[0] < 0 else labels_tab[0][kt[0]] for kt in kts]
             if route == "pa_chunked":
-                for comp in W.compositions(n, 3, 1):
+                # every composition into <= 3 chunks, empty chunks (first, middle, last) included
+                for comp in W.compositions(n, 3, 1, True):
                     variants.append((f"pa_chunked{comp}", lambda comp=comp: to_route(py, kinds[0], route, comp)))
             else:
                 variants.append((route, lambda: to_route(py, kinds[0], route)))
